@@ -1,6 +1,8 @@
 from core import Unit as U
-SORACLES = ["secp256k1_rangeproof_genrand", "secp256k1_pedersen_ecmult", "secp256k1_ge_set_gej_var", "secp256k1_fe_impl_is_square_var",
-            "secp256k1_borromean_sign"]          # genrand: DFCC contract; the others: call-site stubs (assumed_rangeproof.h part B)
+# EVERY callee that is not the real body (audit2 #11): genrand and pub_expand by DFCC contract, the others by call-site stubs
+SORACLES = ["secp256k1_rangeproof_genrand", "secp256k1_rangeproof_pub_expand", "secp256k1_pedersen_ecmult", "secp256k1_ge_set_gej_var",
+            "secp256k1_fe_impl_is_square_var", "secp256k1_borromean_sign", "secp256k1_sha256_write", "secp256k1_sha256_finalize",
+            "secp256k1_scalar_get_b32", "memcpy"]
 SLOOPS = ["secp256k1_range_proveparams.0:20", "secp256k1_range_proveparams.1:20", "secp256k1_range_proveparams.2:33",
           "secp256k1_rangeproof_sign_impl.2:33", "secp256k1_rangeproof_sign_impl.3:5", "secp256k1_rangeproof_sign_impl.4:33",
           "secp256k1_rangeproof_sign_impl.5:129", "secp256k1_clz64_var.0:65"]
@@ -13,7 +15,7 @@ UNITS = [
     U("C09.proveparams", ["C09"], "harness/C09/proveparams.c", "h_proveparams",
       functions=["secp256k1_range_proveparams", "secp256k1_clz64_var"], timeout=900, min_obl=300, unwind=66, replay=True, solver="cadical",
       closed_by="full unwinding to the code-enforced constants (exp <= 18, rings <= 32, clz <= 64); unwinding assertions prove the bounds",
-      note="pure 64-bit function; all (value, min_value, exp in [-1,18], min_bits in [0,64]) with min_value <= value; product/quotient relations (no 64-bit overflow of v*10^exp, range below 2^64) are NOT in this unit"),
+      note="pure 64-bit function; all (value, min_value, exp in [-1,18], min_bits in [0,64]) with min_value <= value; built without -DVERIFY (see harness comment); product/quotient relations (no 64-bit overflow of v*10^exp, range below 2^64) are NOT in this unit"),
     U("C09.sign_gates_m4", ["C09", "C08"], "harness/C09/sign_impl.c", "h_sign_gates", defs=["MAXMAN=4"],
       replace=["secp256k1_rangeproof_pub_expand", "secp256k1_rangeproof_genrand"], assumed=SORACLES, functions=SFUNCS,
       timeout=900, min_obl=300, unwind=34, unwindset=SLOOPS_B, bounded="value - min_value < 16 and min_bits <= 4 (2 rings, 8 ring members)",
